@@ -83,7 +83,7 @@ def run_ser(pid, tier, seed, final_op, fmts, opts_quick, opts_thorough, clauses,
 
 def replay(pid, path):
     r = json.load(open(path))
-    R = pipeline.replay_and_validate(pid + "/replay", r["init"], [(r["hist"], r.get("from", 1))], shards=1)
+    R = pipeline.replay_and_validate(pid + "/replay", r["init"], [(r["hist"], r.get("from", 1), r.get("tid", 1))], shards=1, seed=r.get("seed", 0))
     last = R["sample"]["steps"][-1]
     print(json.dumps({k: last.get(k) for k in ("op", "exc", "stage", "src", "back")}, indent=1)[:4000])
     return {"fails": R["fails"], "init": r["init"], "evidence": None}
